@@ -21,3 +21,18 @@ func VerifC02ElapsedTimeAll(chunk int) {
 	}
 	verifReach("end")
 }
+
+// VerifC06ElapsedTimeAll (C06): every value of the 16-bit elapsed-time field (4096 per chunk)
+// is decoded and encoded again: the bytes come back as they were.
+func VerifC06ElapsedTimeAll(chunk int) {
+	for k := chunk * 4096; k < (chunk+1)*4096; k++ {
+		in := []byte{byte(k >> 8), byte(k)}
+		o, err := ParseOption(OptionElapsedTime, in)
+		verifAssert(err == nil, "elapsed-time-decodes")
+		if err == nil {
+			out := o.ToBytes()
+			verifAssert(len(out) == 2 && out[0] == in[0] && out[1] == in[1], "fixpoint")
+		}
+	}
+	verifReach("end")
+}
